@@ -29,7 +29,7 @@ ANCHORS = [
 ]
 VK = ["scalar", "flat", "flatlist", "colvec", "collist", "ragged", "bad_same_total", "bad_total", "bad_rows", "bad_onerow"]
 FLOOR_TAGS = ["vk:" + v for v in VK] + ["mask:scalar", "mask:flat", "r:int", "r:slice+1", "r:slice+k", "r:slice-", "r:list", "r:mask", "r:ell",
-                                        "recv:fresh", "recv:lazyrows", "recv:lazycols+2", "recv:lazycols-1", "recv:lazychain", "recv:deepcopy", "recv:pickle", "values:hostile-floats", "valdtype:other", "valdtype:exotic", "ellipsis-padded", "seq", "seq:50+",
+                                        "recv:fresh", "recv:lazyrows", "recv:lazycols+2", "recv:lazycols-1", "recv:lazychain", "recv:deepcopy", "recv:pickle", "values:hostile-floats", "valdtype:other", "valdtype:exotic", "ellipsis-padded", "seq", "seq:50+", "vk:selfsel", "overlap",
                                         "c:none", "c:int+", "c:int-", "c:slice+1", "c:slice+k", "c:slice-", "sel-has-empty-row", "e-first", "e-last", "e-mid", "allempty", "norows"]
 FLOOR_MONITORS = ["c03:footprint", "c03:must-refuse", "c03:bystander", "c03:alias", "c03:parent-untouched"]
 FP_STRICT = True       # a floating-point event inside the library that the dense computation does not have is a violation (shard.FpMonitor)
@@ -55,6 +55,8 @@ def mk_mask_case(lens, mask, vk="scalar", dtype="int64"):
 
 
 def applicable(kind, vk, nrows_sel):
+    if vk == "selfsel":
+        return kind == "RA"
     if vk in ("scalar", "augmented"):
         return True
     if vk in ("flat", "flatlist"):
@@ -219,6 +221,21 @@ def run(case):
         for k, r in enumerate(cells):
             for (i, j) in r:
                 exp[i][j] = col[k]
+    elif vk == "selfsel":
+        # the value is itself a (not yet materialised) selection of the TARGET: ra[1:] = ra[:-1].  As in numpy, the value is what the
+        # source region held before the assignment started, also where source and target overlap
+        rs2, cs2, h2 = case["src"]
+        try:
+            kind2, cells2 = model.select_cells(lens, rs2, cs2, h2)
+        except model.Refused:
+            return undefined("source selection refused", tags)
+        if kind2 != "RA" or kind != "RA" or [len(r) for r in cells2] != [len(r) for r in cells]:
+            return undefined("source and target selections have different shapes", tags)
+        value = None
+        src_flat = model.flat_cells(kind2, cells2)
+        tags.append("overlap" if set(src_flat) & set(flatcells) else "disjoint")
+        for (i, j), (i2, j2) in zip(flatcells, src_flat):
+            exp[i][j] = pyrows[i2][j2]
     else:
         sel_lens = [len(r) for r in cells]
         if vk == "ragged":
@@ -250,6 +267,10 @@ def run(case):
         def aug():
             ra[idx] += dt.type(5)
         out = attempt(aug)
+    elif vk == "selfsel":
+        idx2 = model.make_index(*case["src"])
+        value = "ra[%s]" % short(idx2)
+        out = attempt(lambda: ra.__setitem__(idx, ra[idx2]))
     else:
         out = attempt(lambda: ra.__setitem__(idx, value))
     after = attempt(peek, ra)
@@ -368,6 +389,8 @@ def directed():
     rng = random.Random(303)
     for k in range(40):
         yield gen_seq(rng, "quick", nsteps=[5, 12, 50, 60][k % 4])
+    for k in range(150):
+        yield gen_selfsel(rng, "quick")
     # consecutive writes through long index arrays (more than 1000 entries) that agree in their first and last entries and differ in between
     for nrows in (1300, 2500):
         ll = [(i * 5) % 3 + 1 for i in range(nrows)]
@@ -437,9 +460,31 @@ def sweep(tier):
                         yield mk_case(lens, list(range(n)), cs, True, "ragged")
 
 
+def gen_selfsel(rng, tier):
+    """target and source are selections of the same array with the same row lengths (rectangular arrays make that easy)"""
+    n = rng.randint(2, 6)
+    k = rng.randint(1, 4)
+    lens = [k] * n
+    m = rng.randint(1, n - 1)
+    a, b = rng.randint(0, n - m), rng.randint(0, n - m)
+    forms = [((slice(a, a + m), None, False), (slice(b, b + m), None, False)),
+             ((slice(a, a + m), None, False), (slice(b + m - 1, b - 1 if b else None, -1), None, False)),
+             ((list(range(a, a + m)), None, False), (list(range(b, b + m))[::-1], None, False)),
+             ((slice(None), slice(1, None), True), (slice(None), slice(None, -1), True)),
+             ((slice(None), slice(None, -1), True), (slice(None), slice(1, None), True)),
+             ((slice(None), slice(None), True), (slice(None, None, -1), slice(None, None, -1), True)),
+             ((Ellipsis, None, False), (slice(None, None, -1), None, False))]
+    tgt, src = rng.choice(forms)
+    c = mk_case(lens, tgt[0], tgt[1], tgt[2], "selfsel", rng.choice(["int64", "float64", "int32"]), rng.choice(["fresh", "fresh", "fromnumpy", "ufunc", "pickle"]))
+    c["src"] = list(src)
+    return c
+
+
 def random_case(rng, tier, lens=None, plain=False):
     if not plain and rng.random() < 0.03:
         return gen_seq(rng, tier)
+    if not plain and rng.random() < 0.04:
+        return gen_selfsel(rng, tier)
     if lens is None:
         lens, _ = gen.length_vector(rng, tier)
     n = len(lens)
